@@ -563,6 +563,14 @@ def _batch_cases(ctx, reqs, pend):
         cls = classes[i % 6]
         pl = _plane(r)
         sbs = _spacing(r)
+        boundary = cls in ('r2p', 'r2i') and r.random() < 0.3
+        if boundary:
+            # the half-slice limit EXACTLY: an axis-aligned plane with power-of-two spacings and dyadic position, for which the
+            # inverse affine and its products are exact in floating point; |slice coordinate| = 0.5 is still inside
+            a_row, a_col = AXIS_PAIRS[r.randrange(24)]
+            pl = {'pos': [_dy(r, -300, 300) for _ in range(3)], 'ori': [float(x) for x in a_row] + [float(x) for x in a_col],
+                  'ps': [r.choice([0.25, 0.5, 1.0, 2.0]), r.choice([0.25, 0.5, 1.0, 2.0])], 'cls': 'axis'}
+            sbs = r.choice([0.5, 1.0, 2.0, 4.0])
         row, col = np.array(pl['ori'][:3]), np.array(pl['ori'][3:])
         rnd_f, drop_f = r.random() < 0.5, r.random() < 0.5
         k = 3 if cls in ('r2p', 'r2i') else 2
@@ -607,6 +615,8 @@ def _batch_cases(ctx, reqs, pend):
         else:
             # reference points built from index-space points whose slice coordinate is chosen around the half-slice limit
             zs = [r.choice([0.0, 0.0, 0.25, -0.25, 0.49, -0.49, 0.51, -0.51, 0.75, 2.0, -3.0]) if r.random() < 0.45 else 0.0 for _ in range(nrows)]
+            if boundary:
+                zs = [r.choice([0.5, -0.5, 0.5, -0.5, 0.0, 0.25]) for _ in range(nrows)]
             sub = np.array([[_dy(r, -10, 300, 16), _dy(r, -10, 300, 16), z] for z in zs], dtype=float).reshape(nrows, 3)
             fwd3 = sp.create_affine_matrix_from_attributes(pl['pos'], pl['ori'], pl['ps'], sbs)
             arr = (fwd3 @ np.vstack([sub.T, np.ones(nrows)]))[:3].T if nrows else np.zeros((0, 3))
@@ -632,7 +642,7 @@ def _batch_cases(ctx, reqs, pend):
         st, out = _call(tr, arr)
         case = {'fn': 'call', 'cls': cls, 'shape': list(arr.shape), 'dtype': str(arr.dtype), 'layout': layout, 'round': rnd_f, 'drop': drop_f,
                 'plane': pl, 'sbs': sbs, 'kind': shape_kind, 'kind_matters': True}
-        ctx.case(sample=case if i % 43 == 0 else None, fn='call', cls=cls, shape_kind=shape_kind, layout=layout, dtype=arr.dtype.kind,
+        ctx.case(sample=case if i % 43 == 0 else None, fn='call', cls=cls, shape_kind=shape_kind, layout=layout, dtype=arr.dtype.kind, exact_half_slice=boundary,
                  flags=f'round={rnd_f},drop={drop_f}' if cls in ('r2p', 'r2i', 'p2p') else '-', outcome=st if st == 'ok' else out,
                  nontrivial_key=('call', cls, shape_kind, layout) if st == 'ok' else ('call-refused', cls, shape_kind))
         if not np.array_equal(arr, before, equal_nan=True):
@@ -1488,6 +1498,19 @@ def _for_image_compare(reqs, pend, case, ds, frame, total, tol, desc=None):
     pend.append((dict(case, fn='for_image vs model', frame=frame, total=total, multi=True), impl, tol))
 
 
+def _for_images_compare(reqs, pend, case, ds_f, ds_t, frame_f, frame_t, total_f, total_t, tol, desc_f=None, desc_t=None):
+    """PixelToPixelTransformer.for_images / ImageToImageTransformer.for_images (same frame of reference) against the model"""
+    from highdicom import spatial as sp
+    impl = {}
+    for name, cls, kw in (('p2p', sp.PixelToPixelTransformer, {'round_output': False}), ('i2i', sp.ImageToImageTransformer, {})):
+        st, t = _call(cls.for_images, ds_f, ds_t, frame_number_from=frame_f, frame_number_to=frame_t, for_total_pixel_matrix_from=total_f,
+                      for_total_pixel_matrix_to=total_t, **kw)
+        impl[name] = (st, {'m': t.affine[:3, :3], 't': t.affine[:3, 3]} if st == 'ok' else t)
+    reqs.append(('forImages', {'ds_f': desc_f if desc_f is not None else _describe(ds_f), 'ds_t': desc_t if desc_t is not None else _describe(ds_t),
+                               'frame_f': frame_f, 'frame_t': frame_t, 'total_f': total_f, 'total_t': total_t}))
+    pend.append((dict(case, fn='for_images vs model', frames=[frame_f, frame_t], total=[total_f, total_t], multi=True), impl, tol))
+
+
 # ------------------------------------------------------------------ 5a. TILED_FULL images in general form
 SEG_UID = '1.2.840.10008.5.1.4.1.1.66.4'
 LABELMAP_UID = '1.2.840.10008.5.1.4.1.1.66.7'
@@ -1663,6 +1686,13 @@ def _check_tiled_frames(ctx, case, ds, t, r, frames, site, classes=None):
             if not ok:
                 ctx.fail(fcase, {'what': 'frame -> total pixel matrix is not the shift by (C-1, R-1)', 'status': [st2, st3]}, site='frame_vs_total')
                 return False
+            # ... and the opposite direction, total pixel matrix -> frame, is the opposite shift (both two-image classes)
+            st6, t6 = _call(sp.PixelToPixelTransformer.for_images, ds, ds, for_total_pixel_matrix_from=True, frame_number_to=f + 1, round_output=False)
+            st7, t7 = _call(sp.ImageToImageTransformer.for_images, ds, ds, for_total_pixel_matrix_from=True, frame_number_to=f + 1)
+            if not (st6 == 'ok' and st7 == 'ok' and np.abs(t6(cr + off) - (cr - shift)).max() < 1e-6
+                    and np.abs(t7(cr + off + 0.25) - (cr - shift + 0.25)).max() < 1e-6):
+                ctx.fail(fcase, {'what': 'total pixel matrix -> frame is not the shift by -(C-1, R-1)', 'status': [st6, st7]}, site='frame_vs_total')
+                return False
             if plane == 0:
                 st4, back = _call(lambda: sp.ReferenceToPixelTransformer.for_image(ds, frame_number=f + 1, drop_slice_index=True)(ttot(cr + off)))
                 if st4 != 'ok' or not np.array_equal(back, cr):
@@ -1725,6 +1755,20 @@ def _tiled_multi_case(ctx, reqs, pend, r, pl, case, geo):
         _for_image_compare(reqs, pend, case, ds, f + 1, False, tol, desc)
     _for_image_compare(reqs, pend, case, ds, None, True, tol, desc)
     _for_image_compare(reqs, pend, case, ds, None, False, tol, desc)
+    # two-image constructors: frame -> total pixel matrix, total -> frame, frame -> the same tile in the next channel / focal plane.
+    # Compared only where the coplanarity decision is far from its tolerance (planes exactly coplanar or a slice apart).
+    nrm_z = float(np.cross(np.array(t['ori'][:3]), np.array(t['ori'][3:]))[2])
+    zsp_eff = 1.0 if t['zsp'] is None else t['zsp']
+    ptol = tol * 4096
+    for f in frames[:3]:
+        ch, plane, a, b, pos = _tiled_frame(t, f)
+        if abs(plane * zsp_eff * nrm_z) < 1e-9 or abs(plane * zsp_eff * nrm_z) > 1e-3:
+            _for_images_compare(reqs, pend, case, ds, ds, f + 1, None, False, True, ptol, desc, desc)
+            _for_images_compare(reqs, pend, case, ds, ds, None, f + 1, True, False, ptol, desc, desc)
+        f2 = (f + nth * ntw) % n
+        d2 = (_tiled_frame(t, f2)[1] - plane) * zsp_eff * nrm_z
+        if abs(d2) < 1e-9 or abs(d2) > 1e-3:
+            _for_images_compare(reqs, pend, case, ds, ds, f + 1, f2 + 1, False, False, ptol, desc, desc)
 
 
 # ------------------------------------------------------------------ 5b. histories: transformers depend only on the CURRENT attributes
